@@ -269,3 +269,114 @@ def run(ctx):
                   f"defines {sorted(own & set(METHODS))}", c)
         if "metric" in own and "left_sqrt_metric" not in own and "transformation" not in own:
             ctx.bad("R12.2", f"{c.key}::metric without a square root", "metric is defined but neither left_sqrt_metric nor transformation", c)
+
+
+# --------------------------------------------------------------------------- R12.4
+def r12_4(ctx, m, base, impl):
+    """diagonal likelihoods: metric coefficient == (left-sqrt coefficient)^2, component by component"""
+    ctx.rule("R12.4", "diagonal likelihoods: for every implementation whose left_sqrt_metric and metric act component-wise on the "
+                      "tangents, the metric coefficient equals the squared left-sqrt coefficient (the noise operators cov_inv / "
+                      "std_inv are treated as S^2 / S), for real and complex data", floor=4)
+    from .c03 import _load_sympy
+    sp = _load_sympy()
+    if sp is None:
+        ctx.notes.append("sympy not importable: R12.4 undecided")
+        return
+    from ..terms import subst
+
+    def terms_of(fi):
+        """(list of component expressions with locals inlined, tangent param name) or None"""
+        ps = fi.params()
+        if len(ps) < 3:
+            return None
+        env = {}
+        for st in fi.node.body:
+            if isinstance(st, ast.Assign) and len(st.targets) == 1 and isinstance(st.targets[0], ast.Name):
+                env[st.targets[0].id] = subst(st.value, env)
+            elif isinstance(st, ast.Return):
+                v = subst(st.value, env)
+                if isinstance(v, ast.Call) and src(v.func) == "type(primals)" and len(v.args) == 1:
+                    v = v.args[0]
+                comps = list(v.elts) if isinstance(v, ast.Tuple) else [v]
+                return comps, ps[1], ps[2]
+            elif isinstance(st, ast.Expr):
+                continue
+            else:
+                return None
+        return None
+
+    def tosym(e, syms, cval):
+        if isinstance(e, ast.Constant) and isinstance(e.value, (int, float)):
+            return sp.nsimplify(e.value)
+        s = src(e)
+        if s == "self.iscomplex":
+            return sp.Integer(cval)
+        if s == "self.dof":
+            return syms["dof"]
+        if isinstance(e, ast.Subscript) and isinstance(e.value, ast.Name) and isinstance(e.slice, ast.Constant):
+            return syms.setdefault(f"{e.value.id}[{e.slice.value}]", sp.Symbol(f"{e.value.id}_{e.slice.value}", positive=True))
+        if isinstance(e, ast.Name):
+            return syms.setdefault(e.id, sp.Symbol(e.id, positive=True))
+        if isinstance(e, ast.BinOp):
+            a, b = tosym(e.left, syms, cval), tosym(e.right, syms, cval)
+            ops = {ast.Add: lambda: a + b, ast.Sub: lambda: a - b, ast.Mult: lambda: a * b, ast.Div: lambda: a / b, ast.Pow: lambda: a ** b}
+            if type(e.op) in ops:
+                return ops[type(e.op)]()
+        if isinstance(e, ast.UnaryOp) and isinstance(e.op, ast.USub):
+            return -tosym(e.operand, syms, cval)
+        if isinstance(e, ast.Call):
+            f = src(e.func)
+            if f in ("jnp.sqrt", "np.sqrt") and len(e.args) == 1:
+                return sp.sqrt(tosym(e.args[0], syms, cval))
+            if f == "self.noise_std_inv" and len(e.args) == 1:
+                return syms["S"] * tosym(e.args[0], syms, cval)
+            if f == "self.noise_cov_inv" and len(e.args) == 1:
+                return syms["S"] ** 2 * tosym(e.args[0], syms, cval)
+        raise ValueError(s)
+
+    for c in impl.classes.values():
+        if base not in m.mro(c) or c is base:
+            continue
+        lf, mf = c.methods.get("left_sqrt_metric"), c.methods.get("metric")
+        if lf is None or mf is None:
+            continue
+        key = f"{c.key}::metric coefficient == (left_sqrt_metric coefficient)^2"
+        tl, tm = terms_of(lf), terms_of(mf)
+        if tl is None or tm is None or len(tl[0]) != len(tm[0]):
+            ctx.und("R12.4", key, "not a component-wise closed form", c)
+            continue
+        verdict, why = True, []
+        try:
+            for cval in (0, 1):
+                syms = {"dof": sp.Symbol("dof", positive=True), "S": sp.Symbol("S", positive=True)}
+                for k, (el, em) in enumerate(zip(tl[0], tm[0])):
+                    def tang(tparam, ncomp):
+                        name = f"{tparam}[{k}]" if ncomp > 1 else tparam
+                        return name
+                    L = tosym(el, syms, cval)
+                    M = tosym(em, syms, cval)
+                    tL = syms.get(tang(tl[2], len(tl[0])))
+                    tM = syms.get(tang(tm[2], len(tm[0])))
+                    if tL is None or tM is None:
+                        raise ValueError("tangent component not found")
+                    a = sp.simplify(sp.diff(L, tL))
+                    b = sp.simplify(sp.diff(M, tM))
+                    if sp.simplify(L - a * tL) != 0 or sp.simplify(M - b * tM) != 0:
+                        raise ValueError("not linear/diagonal in the tangent")
+                    if sp.simplify(b - a ** 2) != 0:
+                        verdict = False
+                        why.append(f"component {k}, {'complex' if cval else 'real'} data: metric coefficient {b} but left-sqrt coefficient "
+                                   f"{a} (square {sp.simplify(a ** 2)})")
+        except ValueError as ex:
+            ctx.und("R12.4", key, f"term not translated: {ex}", c)
+            continue
+        ctx.check("R12.4", key, verdict, "; ".join(why) or None, c)
+
+
+_run_c12 = run
+
+
+def run(ctx):  # noqa: F811
+    _run_c12(ctx)
+    m = ctx.model
+    r12_4(ctx, m, m.cls(LH, "Likelihood"), m.module(IMPL))
